@@ -96,6 +96,11 @@ def run_config(items, env):
                 if "locals" in subset:
                     local_lines[lvl].append(f"{name} = localvals[{lvl}][{name!r}]")
                     localvals[lvl][name] = make_value(role, sentinel("locals", lvl))
+        # the index of the frame is called like a name that is not a column (what set_index / groupby leave behind): an index
+        # is a row label, not one of the five scopes, so the name stays undefined or comes from where the statement says
+        not_columns = [name for _, name, subset in items if "data" not in subset]
+        if not_columns:
+            data.index = pd.Index(np.arange(N, dtype=float) + 100.0, name=not_columns[0])
         for lvl in range(DEPTH):
             call = "design_matrices(formula, data, env=env, extra_namespace=extra)" if lvl == 0 else f"level{lvl - 1}(formula, data, env, extra, localvals)"
             src = SRC.format(i=lvl, locals_line="; ".join(local_lines[lvl]) or "pass", call=call)
